@@ -22,7 +22,7 @@ def run(patch, pids, keep=False, quiet=False):
             keys = [l.split(":", 1)[1].strip() for l in r.stdout.splitlines() if l.strip().startswith("key")]
             out[pid] = (r.returncode, keys, r.stdout[-1500:] if r.returncode not in (0, 1) else "")
             if not quiet:
-                print(pid, r.returncode, keys[:3], out[pid][2][-300:].replace("\n", " | "))
+                print(pid, r.returncode, keys[:8], out[pid][2][-300:].replace("\n", " | "))
     finally:
         subprocess.run(["git", "-C", "/repo", "worktree", "remove", "--force", d + "/repo"], capture_output=True)
         shutil.rmtree(d, ignore_errors=True)
